@@ -1,10 +1,10 @@
-\* fact semantics: set / delete / set-if-absent (rejected in braid)
+\* quiet commands (write no fact): segments whose prefix writes nothing, N=4
 SPECIFICATION Spec
 CONSTANTS
   MergeTag = 2
-  N = 3
-  Kinds = {"b0", "fin"}
-  Ops = {"n", "s", "d", "x", "q"}
+  N = 4
+  Kinds = {"b0"}
+  Ops = {"n", "q"}
   EmitEvery = 1
   EmitSalt = 0
 INVARIANTS InvAlgEqRef InvLcaWalk InvFoldWalk InvFinalize InvOnce InvDominator InvFinalizeFirst Emit
